@@ -1086,7 +1086,9 @@ class UDFTimestamp:
 
         local = time.localtime(date_seconds)
 
-        self.tz = utils.gmtoffset_from_tm(date_seconds, local)
+        # gmtoffset_from_tm returns 15-minute intervals, but the UDF timezone
+        # is in minutes (ECMA-167, Part 1, 7.3.1).
+        self.tz = utils.gmtoffset_from_tm(date_seconds, local) * 15
         # FIXME: for the timetype, 0 is UTC, 1 is local, 2 is 'agreement'.
         # let the user set this.
         self.timetype = 1
